@@ -40,8 +40,8 @@ type Conn struct {
 	wdl    time.Time
 	after  bool
 
-	peer    *Conn // buffered pipe mode: writes are fed to the peer
-	NoLog   bool  // do not keep Written / write events (long streams)
+	peer        *Conn // buffered pipe mode: writes are fed to the peer
+	NoLog       bool  // do not keep Written / write events (long streams)
 	Events      []Event
 	Written     []byte
 	WriteFailAt int // -1 = never; otherwise total offset at which writes fail
